@@ -288,6 +288,39 @@ def pad_model(model: dict, pad: int) -> dict:
     return m
 
 
+def magnify(ch: Choices, model: dict, probes=None) -> dict:
+    """Magnitude: the parameters of the linear constraints near the top of the documented 32 bits.  (a) the
+    coefficients and the constant of every linear constraint multiplied by a large factor - the meaning is unchanged,
+    every parameter still fits 32 bits, the products a_i * x_i no longer do; (b) one more equality f * x = f * k with f
+    = 2^28..2^30.  The engine has to compute such products in 64 bits, compiled (numba promotes) and interpreted
+    (numpy 32-bit scalars do not: repaired by fix 701db87, DESIGN.md 8.2)."""
+    out = model
+    if ch.chance(1, 5, "magnitude") and any(p[1].startswith("affine_") for p in model["props"]):
+        big = max(max(abs(a) for a in p[2]) for p in model["props"] if p[1].startswith("affine_")) or 1
+        lim = ((1 << 31) - 1) // big
+        p2 = 1 << (lim.bit_length() - 1)  # with a power of two, a product that wraps is off by a small multiple of f
+        f = max(1, [p2, p2 >> 1, p2 >> 2, lim, 65537, 1 << 16][ch.choose(6, "magnitude.f")])
+        out = dict(out, props=[[vs, alg, [a * f for a in prm] if alg.startswith("affine_") else list(prm)] for vs, alg, prm in out["props"]])
+        if probes is not None:
+            probes["large_magnitude_models"] += 1
+    if ch.chance(1, 12, "magnitude.unary"):
+        sh = 28 + ch.choose(3, "magnitude.unary.shift")
+        m_ = 1 << (32 - sh)
+        k_ = ch.choose(m_, "magnitude.unary.k") - m_ // 2
+        v_ = ch.choose(len(model["idx"]), "magnitude.unary.v")
+        out = dict(out, props=list(out["props"]) + [[[v_], "affine_eq", [1 << sh, (1 << sh) * k_]]])
+        if probes is not None:
+            probes["large_magnitude_models"] += 1
+    return out
+
+
+def R_space(shr) -> int:
+    n = 1
+    for lo, hi in shr:
+        n *= hi - lo + 1
+    return n
+
+
 def gen_model(ch: Choices, opts: Optional[dict] = None) -> dict:
     opts = dict(opts or {})
     if opts.get("pad_chance") and ch.chance(1, opts["pad_chance"], "pad"):
@@ -344,6 +377,17 @@ def gen_model(ch: Choices, opts: Optional[dict] = None) -> dict:
             c = gen_constraint(ch, model, t, opts)
         if c is not None:
             model["props"].append(c)
+    if ch.chance(1, 12, "orphan"):
+        # a shared domain that no variable refers to (a Problem built with explicit indices may skip one, and
+        # add_variable always appends the domain it is given, even for a view): it is a decision domain like any
+        # other, so every assignment of the variables is delivered once per value of it
+        lo = ch.choose(4, "orphan.lo") - 1
+        dom = [lo, lo + ch.choose(3, "orphan.size")]
+        at = ch.choose(len(model["shr"]) + 1, "orphan.at")
+        if R_space(model["shr"]) * (dom[1] - dom[0] + 1) <= opts.get("max_space", 4096):
+            model["shr"].insert(at, dom)
+            model["idx"] = [i if i < at else i + 1 for i in model["idx"]]
+            model["orphan_domain"] = at
     if ch.chance(1, 4, "var_order"):
         # the variables are listed in another order than their shared domains (variable i need not sit on domain i)
         nv = len(model["idx"])
